@@ -1,2 +1,169 @@
+/-
+  C20 — file and console built-ins agree with the file system and stdin.
+
+  The operating system is a MODEL here (`World`: an abstract file tree and an input stream), so this
+  is the property the technique reaches most weakly: the theorems cover the algebra of the abstract
+  tree and the decision logic of the seven wrappers (argument checking, error for every failing
+  case, results); agreement of the abstract tree with the real file system and with real stdin is
+  established by the C20 correspondence runs only (DESIGN.md §4 C20, "partial").
+-/
 import Pakhi.Model.Interp
-import Pakhi.Model.Parser
+
+namespace Pakhi
+namespace C20
+
+theorem find_map_replace (e0 : FsEntry) (p : Str) (hp : e0.path = p) : ∀ (l : List FsEntry), l.any (·.path == p) = true →
+    (l.map (fun x => if x.path == p then e0 else x)).find? (·.path == p) = some e0
+  | [], h => by simp at h
+  | e :: r, h => by
+      by_cases he : (e.path == p) = true
+      · have he' : e.path = p := by simpa using he
+        simp [List.find?, he', hp]
+      · have hr : r.any (·.path == p) = true := by simpa [he] using h
+        have := find_map_replace e0 p hp r hr
+        simp only [List.map_cons, he, Bool.false_eq_true, if_false, List.find?_cons]
+        exact this
+
+theorem find_after_write (w w' : World) (p : Str) (s : Str) (h : w.writeFile p s = some w') :
+    w'.find? p = some { path := p, isDir := false, content := some s, nameOk := true } := by
+  unfold World.writeFile at h
+  split at h
+  · simp at h
+  · by_cases hex : w.fs.any (·.path == p) = true
+    · simp only [hex, if_true] at h
+      injection h with h; subst h
+      exact find_map_replace { path := p, isDir := false, content := some s, nameOk := true } p rfl w.fs hex
+    · simp only [hex, Bool.false_eq_true, if_false] at h
+      simp at h; subst h
+      simp only [World.find?]
+      have : w.fs.find? (fun x => x.path == p) = none := by
+        simp only [List.find?_eq_none]
+        intro x hx hk; apply hex; simp only [List.any_eq_true]; exact ⟨x, hx, hk⟩
+      simp [List.find?_append, this]
+
+/-- `_রাইট-ফাইল(p, s)` followed by `_রিড-ফাইল(p)` returns `s` exactly, for any text, and replaces earlier content -/
+theorem write_read (w w' : World) (p : Str) (s : Str) (h : w.writeFile p s = some w') : w'.readFile p = some s := by
+  simp [World.readFile, find_after_write w w' p s h]
+
+/-- a second write replaces the first -/
+theorem write_write_read (w w1 w2 : World) (p : Str) (s1 s2 : Str) (_h1 : w.writeFile p s1 = some w1)
+    (h2 : w1.writeFile p s2 = some w2) : w2.readFile p = some s2 := write_read w1 w2 p s2 h2
+
+/-- after `_ডিলিট-ফাইল(p)` a read of `p` is an error -/
+theorem delete_then_read (w w' : World) (p : Str) (h : w.deleteFile p = some w') : w'.readFile p = none := by
+  unfold World.deleteFile at h
+  split at h
+  · split at h
+    · simp at h
+    · simp at h; subst h
+      have : (w.fs.filter (fun x => x.path != p)).find? (fun x => x.path == p) = none := by
+        simp only [List.find?_eq_none, List.mem_filter]
+        intro x hx hk; simp at hx; simp at hk; exact hx.2 hk
+      simp [World.readFile, World.find?, this]
+  · simp at h
+
+/-- deleting a missing file or a directory is an error -/
+theorem delete_invalid (w : World) (p : Str) :
+    (w.find? p = none → w.deleteFile p = none) ∧ (∀ e, w.find? p = some e → e.isDir = true → w.deleteFile p = none) := by
+  constructor
+  · intro h; simp [World.deleteFile, h]
+  · intro e h hd; simp [World.deleteFile, h, hd]
+
+/-- reading a missing path, a directory, or content that is not valid UTF-8 is an error -/
+theorem read_failures (w : World) (p : Str) :
+    (w.find? p = none → w.readFile p = none) ∧
+    (∀ e, w.find? p = some e → e.isDir = true → w.readFile p = none) ∧
+    (∀ e, w.find? p = some e → e.content = none → w.readFile p = none) := by
+  refine ⟨?_, ?_, ?_⟩
+  · intro h; simp [World.readFile, h]
+  · intro e h hd; simp [World.readFile, h, hd]
+  · intro e h hc; simp [World.readFile, h, hc]
+
+/-- writing where the parent is no directory, or onto a directory, is an error -/
+theorem write_failures (w : World) (p s : Str) (h : w.isDir (World.parentOf p) = false ∨ w.isDir p = true) :
+    w.writeFile p s = none := by
+  unfold World.writeFile
+  rcases h with h | h <;> simp [h]
+
+/-- `_ফাইল-নাকি-ডাইরেক্টরি` reports the kind of an existing path and fails on a missing one -/
+theorem file_or_dir (w : World) (p : Str) (hp : p ≠ ['/']) :
+    (∀ e, w.find? p = some e → w.fileOrDir p = some (!e.isDir)) ∧ (w.find? p = none → w.fileOrDir p = none) := by
+  have : (p == ['/']) = false := by simpa using hp
+  constructor
+  · intro e h; simp [World.fileOrDir, this, h]
+  · intro h; simp [World.fileOrDir, this, h]
+
+/-- `_রিড-ডাইরেক্টরি` fails on a non-directory and on a directory holding an entry whose name is not valid UTF-8 -/
+theorem read_dir_failures (w : World) (p : Str) :
+    (w.isDir p = false → w.readDir p = none) ∧
+    (w.isDir p = true → (∃ e ∈ w.children p, e.nameOk = false) → w.readDir p = none) := by
+  constructor
+  · intro h; simp [World.readDir, h]
+  · intro h ⟨e, he, hn⟩
+    simp only [World.readDir, h, Bool.not_true, Bool.false_eq_true, if_false]
+    have : (w.children p).all (·.nameOk) = false := by
+      cases hall : (w.children p).all (·.nameOk) with
+      | false => rfl
+      | true => simp only [List.all_eq_true] at hall; simp [hall e he] at hn
+    simp [this]
+
+/-- `_রিড-ডাইরেক্টরি` returns exactly one name per entry of the directory -/
+theorem read_dir_names (w : World) (p : Str) (names : List Str) (h : w.readDir p = some names) :
+    names.length = (w.children p).length ∧ w.isDir p = true := by
+  by_cases hd : w.isDir p = true
+  · by_cases ha : (w.children p).all (·.nameOk) = true
+    · simp [World.readDir, hd, ha] at h; subst h; simp [hd]
+    · simp [World.readDir, hd, ha] at h
+  · simp [World.readDir, hd] at h
+
+/-- `_ডিলিট-ডাইরেক্টরি` removes the directory with everything below it -/
+theorem delete_dir_recursive (w w' : World) (p : Str) (h : w.deleteDirAll p = some w') :
+    w'.find? p = none ∧ ∀ q, World.isUnder p q = true → w'.find? q = none := by
+  unfold World.deleteDirAll at h
+  split at h
+  · split at h
+    · simp at h; subst h
+      constructor
+      · simp only [World.find?, List.find?_eq_none, List.mem_filter]
+        intro x hx hk; simp at hx hk; exact hx.2.1 hk
+      · intro q hq
+        simp only [World.find?, List.find?_eq_none, List.mem_filter]
+        intro x hx hk; simp at hx hk; subst hk; simp [hq] at hx
+    · simp at h
+  · simp at h
+
+/-- `_রিড-লাইন()` returns the next line without its terminator and without trailing blanks, the empty
+    string at end of input, and consumes exactly that line -/
+theorem read_line (w : World) :
+    (w.readLine).1 = World.trimEnd (w.stdin.takeWhile (· != '\n')) ∧
+    (w.readLine).2.stdin = (w.stdin.dropWhile (· != '\n')).drop 1 ∧ (w.readLine).2.fs = w.fs := by
+  simp [World.readLine]
+
+theorem read_line_eof (w : World) (h : w.stdin = []) : (w.readLine).1 = [] := by
+  simp [World.readLine, h, World.trimEnd]
+
+/-- every file-system failure reaches the program as an error of the built-in, never a panic: the
+    wrappers return `.inr` exactly when the tree operation fails -/
+theorem fs_fault_is_err (s : St) (p c : Str) :
+    (s.world.readFile p = none → ∃ t, callB .readFile [.str p] s = .inr t) ∧
+    (s.world.writeFile p c = none → ∃ t, callB .writeFile [.str p, .str c] s = .inr t) ∧
+    (s.world.deleteFile p = none → ∃ t, callB .deleteFile [.str p] s = .inr t) ∧
+    (s.world.createDirAll p = none → ∃ t, callB .createDir [.str p] s = .inr t) ∧
+    (s.world.readDir p = none → ∃ t, callB .readDir [.str p] s = .inr t) ∧
+    (s.world.deleteDirAll p = none → ∃ t, callB .deleteDir [.str p] s = .inr t) ∧
+    (s.world.fileOrDir p = none → ∃ t, callB .fileOrDir [.str p] s = .inr t) := by
+  refine ⟨?_, ?_, ?_, ?_, ?_, ?_, ?_⟩ <;> intro h <;> simp [callB, h]
+
+/-- and succeed with the documented result otherwise -/
+theorem fs_success (s : St) (p c : Str) :
+    (∀ t, s.world.readFile p = some t → callB .readFile [.str p] s = .inl (.str t, s)) ∧
+    (∀ w', s.world.writeFile p c = some w' → callB .writeFile [.str p, .str c] s = .inl (.bool true, { s with world := w' })) ∧
+    (∀ w', s.world.deleteFile p = some w' → callB .deleteFile [.str p] s = .inl (.bool true, { s with world := w' })) ∧
+    (∀ w', s.world.createDirAll p = some w' → callB .createDir [.str p] s = .inl (.bool true, { s with world := w' })) ∧
+    (∀ w', s.world.deleteDirAll p = some w' → callB .deleteDir [.str p] s = .inl (.bool true, { s with world := w' })) := by
+  refine ⟨?_, ?_, ?_, ?_, ?_⟩ <;> intro x h <;> simp [callB, h]
+
+example : World.trimEnd "ab \t\r".toList = ['a', 'b'] := by decide
+
+end C20
+end Pakhi
